@@ -123,10 +123,8 @@ pub fn solve_instance(input_data: serde_json::Value) -> serde_json::Value {
     schedule_with_optimized_transitions.print_next_day_transitions();
 
     // reassign end depots to be consistent with transitions
-    let final_schedule = solution
-        .solution()
-        .get_schedule()
-        .reassign_end_depots_consistent_with_transitions();
+    let final_schedule =
+        schedule_with_optimized_transitions.reassign_end_depots_consistent_with_transitions();
     let final_schedule_with_info = ScheduleWithInfo::new(
         final_schedule,
         SwapInfo::NoSwap,
